@@ -21,6 +21,30 @@ def split_ascii(phrase):
     return bip39.split_ws(phrase)
 
 
+_LIG = [("ffi", "\ufb03"), ("ffl", "\ufb04"), ("ff", "\ufb00"), ("fi", "\ufb01"), ("fl", "\ufb02"), ("st", "\ufb06")]
+
+
+def compat_variant(rng, w):
+    """A token that is NOT the list word w but becomes w under Unicode compatibility normalisation / case folding: full-width
+    letters, ligatures, mathematical alphanumerics, small capitals. It must be refused as an unknown word."""
+    k = rng.randrange(5)
+    if k == 0:
+        return "".join(chr(0xff41 + ord(c) - 97) for c in w)  # full-width
+    if k == 1:
+        j = rng.randrange(len(w))
+        return w[:j] + chr(0xff41 + ord(w[j]) - 97) + w[j + 1:]
+    if k == 2:
+        for a, b in _LIG:
+            if a in w:
+                return w.replace(a, b, 1)
+        return w[:-1] + chr(0x1d41a + ord(w[-1]) - 97)
+    if k == 3:
+        return "".join(chr(0x1d41a + ord(c) - 97) for c in w)  # mathematical bold
+    j = rng.randrange(len(w))
+    return w[:j] + {"a": "\u00aa", "o": "\u00ba", "s": "\u017f", "i": "\u2170", "c": "\u217d", "d": "\u217e", "m": "\u217f", "l": "\u217c", "x": "\u2179",
+                    "v": "\u2174"}.get(w[j], chr(0x24d0 + ord(w[j]) - 97)) + w[j + 1:]
+
+
 def judge_parse(case, obs):
     o = obs[0]
     x = case["x"]
@@ -156,8 +180,21 @@ def gen(shard, rng, tier):
             words = words + [complete_last(rng, words)]
             i = rng.randrange(n)
             w = words[i]
-            k = rng.randrange(9)
-            if k == 0:
+            k = rng.randrange(12)
+            if k == 9:
+                bad = compat_variant(rng, w)
+            elif k == 10:
+                # invisible characters that are NOT white space glued to an otherwise valid word (BOM, zero-width, soft hyphen, joiners)
+                inv = rng.choice(["\ufeff", "\u200b", "\u200c", "\u200d", "\u2060", "\u00ad", "\u180e", "\u034f", "\ufe0f"])
+                j = rng.choice([0, 0, len(w), rng.randrange(len(w) + 1)])
+                bad = w[:j] + inv + w[j:]
+                if rng.random() < 0.4:
+                    i = 0  # in particular in front of the very first word (a byte order mark)
+                    w = words[0]
+                    bad = inv + w
+            elif k == 11:
+                bad = rng.choice([w + ".", w + ",", "\"" + w + "\"", w + ";", "(" + w + ")", w + "\\n"])
+            elif k == 0:
                 bad = w.upper()
             elif k == 1:
                 bad = w.capitalize()
@@ -181,6 +218,16 @@ def gen(shard, rng, tier):
             words[i] = bad
             yield from both(_case(" ".join(words), "unknown-word", "unknown"))
     elif name == "layouts":
+        # valid phrases padded with a great deal of white space (beyond 64 KiB and 1 MiB): the layout is irrelevant
+        for n in bip39.LEGAL_COUNTS:
+            words = rand_words(rng, n - 1)
+            words = words + [complete_last(rng, words)]
+            for pad in (70000, 1 << 20):
+                ws = rng.choice([" ", "\n", " \t"])
+                k = rng.randrange(3)
+                phrase = [ws * (pad // len(ws)) + " ".join(words), " ".join(words) + ws * (pad // len(ws)),
+                          (ws * (pad // (n * len(ws)) + 1)).join(words)][k]
+                yield from both(_case(phrase, "valid-%d" % n, "layout"))
         for _ in range(shard["count"]):
             n = rng.choice(bip39.LEGAL_COUNTS)
             words = rand_words(rng, n - 1)
